@@ -25,6 +25,7 @@ import (
 	"sync/atomic"
 	"testing/synctest"
 	"time"
+	"unsafe"
 )
 
 const (
@@ -135,7 +136,10 @@ type Sim struct {
 	AutoAdvances int // times the clock was moved to a library timer
 	tickers      []*ticker
 	rootChildren int
+	sameTurns    int
+	lastSite     string
 	onces        map[*sync.Once]*onceState
+	timerOf      map[*time.Timer]time.Time
 	recent       [16]string // ring of the last scheduling decisions
 	SimTime      time.Duration
 	nroot        int
@@ -478,8 +482,9 @@ func TimeAfterFunc(site string, d time.Duration, f func()) *time.Timer {
 		return time.AfterFunc(d, f)
 	}
 	name := s.afName()
-	register(d)
-	return time.AfterFunc(d, func() { s.adopt(name, site, f) })
+	t := time.AfterFunc(d, func() { s.adopt(name, site, f) })
+	registerFor(t, d)
+	return t
 }
 
 func register(d time.Duration) {
@@ -579,6 +584,25 @@ func (s *Sim) Run() Outcome {
 			s.MaxEnabled = len(en)
 		}
 		g := en[s.choose(en)]
+		// Weak fairness: a goroutine that comes back to the same scheduling point
+		// again and again while others could run (a spin loop with runtime.Gosched,
+		// a poll) gives way after FairAfter turns. Real schedulers are fair in this
+		// sense; an exhausted or minimised tape ("no context switch") is not.
+		if len(en) > 1 && g == s.last && g.Site == s.lastSite {
+			s.sameTurns++
+			if s.sameTurns > FairAfter {
+				s.sameTurns = 0
+				for _, o := range en {
+					if o != g {
+						g = o
+						break
+					}
+				}
+			}
+		} else {
+			s.sameTurns = 0
+		}
+		s.lastSite = g.Site
 		// remove from parked
 		for i, p := range s.parked {
 			if p == g {
@@ -768,10 +792,60 @@ type ticker struct {
 }
 
 // NewTimer replaces time.NewTimer in instrumented code.
-func NewTimer(d time.Duration) *time.Timer { register(d); return time.NewTimer(d) }
+func NewTimer(d time.Duration) *time.Timer {
+	t := time.NewTimer(d)
+	registerFor(t, d)
+	return t
+}
 
 // TimerReset replaces (*time.Timer).Reset.
-func TimerReset(t *time.Timer, d time.Duration) bool { register(d); return t.Reset(d) }
+func TimerReset(t *time.Timer, d time.Duration) bool {
+	withdraw(t)
+	registerFor(t, d)
+	return t.Reset(d)
+}
+
+// TimerStop replaces (*time.Timer).Stop: a stopped timer no longer attracts the clock.
+func TimerStop(t *time.Timer) bool {
+	withdraw(t)
+	return t.Stop()
+}
+
+func registerFor(t *time.Timer, d time.Duration) {
+	s := cur.Load()
+	if s == nil || s.dead.Load() {
+		return
+	}
+	if d < 0 {
+		d = 0
+	}
+	at := time.Now().Add(d)
+	s.mu.Lock()
+	s.timers = append(s.timers, at)
+	if s.timerOf == nil {
+		s.timerOf = map[*time.Timer]time.Time{}
+	}
+	s.timerOf[t] = at
+	s.mu.Unlock()
+}
+
+func withdraw(t *time.Timer) {
+	s := cur.Load()
+	if s == nil {
+		return
+	}
+	s.mu.Lock()
+	if at, ok := s.timerOf[t]; ok {
+		delete(s.timerOf, t)
+		for i, x := range s.timers {
+			if x.Equal(at) {
+				s.timers = append(s.timers[:i], s.timers[i+1:]...)
+				break
+			}
+		}
+	}
+	s.mu.Unlock()
+}
 
 // NewTicker replaces time.NewTicker.
 func NewTicker(d time.Duration) *time.Ticker {
@@ -872,6 +946,9 @@ func OnceDo(site string, o *sync.Once, f func()) {
 		s.onces = map[*sync.Once]*onceState{}
 	}
 	st := s.onces[o]
+	if st != nil && st.done && atomic.LoadUint32((*uint32)(unsafe.Pointer(o))) == 0 {
+		st = nil // the Once was re-armed by assignment (x.once = sync.Once{}): a new life
+	}
 	if st == nil {
 		st = &onceState{}
 		s.onces[o] = st
@@ -937,3 +1014,7 @@ func OnceValues[T1, T2 any](f func() (T1, T2)) func() (T1, T2) {
 		return v1, v2
 	}
 }
+
+// FairAfter: consecutive turns of one goroutine at one site, with others
+// enabled, after which the scheduler passes the token on.
+var FairAfter = 200
